@@ -169,7 +169,7 @@ static std::string snap_str(const Snap& s) {
 
 // ------------------------------------------------------------------------------------------------ calls
 enum Kind { K_SETOPT, K_SETEXTRA, K_SETCMT, K_RESETSTATE, K_RESETCMT, K_INST, K_NEWLABEL, K_NAMEDLABEL, K_BIND, K_ALIGN, K_EMBED,
-            K_EMBEDLABEL, K_SECTION, K_NEWSECTION, K_REL, K_EMBEDLABELDELTA, K_MEM, K_VSIB };
+            K_EMBEDLABEL, K_SECTION, K_NEWSECTION, K_REL, K_EMBEDLABELDELTA, K_MEM, K_VSIB, K_CONSTPOOL, K_PUSHPOP, K_LDST, K_SHIFT, K_VSIB2 };
 struct Call {
   Kind kind; uint32_t a = 0, b = 0; uint64_t c = 0; bool flag = false;
   Operand ops[6]; std::string name; const char* what = ""; uint32_t nform = 6;
@@ -230,6 +230,23 @@ static Res exec(Ctx& c, const Call& k) {
       case K_VSIB: {   // vgatherdps v, [vsib], v: verdict computed by the model (validator + VEX/VSIB encoder path)
         Operand ext[3];
         e = c.em->_emit(x86::Inst::kIdVgatherdps, k.ops[0], k.ops[1], k.ops[2], ext); break; }
+      case K_CONSTPOOL: {   // pool variant k.b: 1..3 eight-byte constants, or one sixteen-byte constant (alignment 16)
+        ArenaTmp<1024> arena(1024); ConstPool pool(arena); size_t off;
+        if (k.b == 4) { uint64_t v[2] = { 0x0102030405060708ull, 0x1112131415161718ull }; pool.add(v, 16, Out(off)); }
+        else for (uint32_t i = 0; i < k.b; i++) { uint64_t v = 0x1122334455667788ull + i; pool.add(&v, 8, Out(off)); }
+        Label l; l.set_id(k.a); e = c.em->embed_const_pool(l, pool); break; }
+      case K_PUSHPOP: {   // push / pop of a segment register with an arbitrary id: verdict computed by the model
+        Operand none, ext[3];
+        e = c.em->_emit(k.flag ? x86::Inst::kIdPop : x86::Inst::kIdPush, k.ops[0], none, none, ext); break; }
+      case K_VSIB2: {   // vgatherdps v {k}, [vsib]: the AVX-512 form, mask in the extra register; verdict computed by the model (EVEX or VEX prefix, compressed disp8)
+        Operand none, ext[3];
+        e = c.em->_emit(x86::Inst::kIdVgatherdps, k.ops[0], k.ops[1], none, ext); break; }
+      case K_SHIFT: {   // shift / rotate of a register by an immediate: verdict computed by the model (validator + kEncodingX86Rot + EmitX86R)
+        Operand none, ext[3];
+        e = c.em->_emit(k.a, k.ops[0], k.ops[1], none, ext); break; }
+      case K_LDST: {   // a64 load / store with arbitrary addressing fields: verdict computed by the model (kEncodingBaseLdSt path)
+        Operand none, ext[3];
+        e = c.em->_emit(k.a, k.ops[0], k.ops[1], none, ext); break; }
       case K_NEWSECTION: { Section* s; e = c.code.new_section(Out(s), k.name.data(), k.name.size(), SectionFlags::kNone, k.a, 0); break; }
     }
   } catch (const Thrown& t) { r.thrown = 1; e = (k.kind == K_NEWLABEL || k.kind == K_NAMEDLABEL) ? Error(0xFFFF) : t.err; }
@@ -628,6 +645,76 @@ static std::string bad_reg_ids(Ctx& c, const Call& k, const Snap& pre) {
 }
 
 
+// ------------------------------------------------------------------------------------------------ x86 VEX-only sweep
+// Deterministic: for every instruction whose database row has a VEX but no EVEX encoding (and for the three-operand,
+// vector-mask forms of the VSIB gathers, which exist VEX-encoded only) forms are built from the instruction signatures;
+// in every accepted form each vector register position (operand, vector index of the memory operand) is given an id of
+// 16..31 - registers only an EVEX prefix can name. Acceptance is printed as "W <inst id> <mnemonic> <position> <bytes>".
+static void sweep_vexonly() {
+  using namespace x86;
+  static Ctx* cp = new Ctx(); Ctx& c = *cp; c.init(AR_X64, FL_ASM, H_NONE, false, false, 0);   // static: stays reachable (LeakSanitizer)
+  uint32_t insts = 0, forms = 0, accepted = 0;
+  for (uint32_t id = 1; id < Inst::_kIdCount; id++) {
+    const InstDB::InstInfo& info = InstDB::inst_info_by_id(id);
+    const InstDB::CommonInfo& ci = info.common_info();
+    if (!ci.has_flag(InstDB::InstFlags::kVex)) continue;
+    bool inst_vex_only = !ci.has_flag(InstDB::InstFlags::kEvex);
+    bool gather = ci.has_flag(InstDB::InstFlags::kVsib);
+    if (!inst_vex_only && !gather) continue;
+    Span<const InstDB::InstSignature> sigs = info.inst_signatures();
+    bool counted = false;
+    String name; InstAPI::inst_id_to_string(Arch::kX64, id, InstStringifyOptions::kNone, name);
+    for (size_t si = 0; si < sigs.size(); si++) {
+      const InstDB::InstSignature& sg = sigs[si];
+      if (!sg.supports_mode(InstDB::Mode::kX64)) continue;
+      if (!inst_vex_only && sg.op_count() != 3) continue;     // gathers: only the three-operand (vector mask) form is VEX-only
+      Rng g{ 0xE7E7ull * id + si };
+      for (int t = 0; t < 12; t++) {
+        Call k; k.kind = K_INST; k.a = id; uint32_t n = 0;
+        for (uint32_t i = 0; i < sg.op_count(); i++) {
+          const InstDB::OpSignature& os = sg.op_signature(i);
+          uint64_t fl = uint64_t(os.flags());
+          if (fl & uint64_t(InstDB::OpFlags::kFlagImplicit)) continue;
+          uint64_t opm = fl & uint64_t(InstDB::OpFlags::kOpMask);
+          if (!opm) continue;
+          k.ops[n++] = x86_op_from_flag(g, c, pick_bit(g, opm), fl, os._reg_mask);
+        }
+        auto is_vec = [](RegType rt) { return rt == RegType::kVec128 || rt == RegType::kVec256 || rt == RegType::kVec512; };
+        bool low = true; int nvec = 0;
+        for (uint32_t i = 0; i < n; i++) {
+          if (k.ops[i].is_reg() && is_vec(k.ops[i].as<Reg>().reg_type())) { nvec++; if (k.ops[i].id() > 15) low = false; }
+          if (k.ops[i].is_mem() && is_vec(k.ops[i].as<BaseMem>().index_type())) { nvec++; if (k.ops[i].as<BaseMem>().index_id() > 15) low = false; }
+        }
+        if (!nvec || !low) continue;
+        Call z; z.kind = K_RESETSTATE; exec(c, z);
+        Res r = exec(c, k);
+        if (r.ret != 0) continue;
+        if (!counted) { insts++; counted = true; }
+        forms++;
+        for (uint32_t i = 0; i < n; i++) {
+          for (int part = 0; part < 2; part++) {
+            Call m = k; char pos[32];
+            if (part == 0) { if (!(k.ops[i].is_reg() && is_vec(k.ops[i].as<Reg>().reg_type()))) continue; m.ops[i].as<Reg>().set_id(16 + (id + i) % 16); snprintf(pos, sizeof(pos), "op%u", i); }
+            else { if (!(k.ops[i].is_mem() && is_vec(k.ops[i].as<BaseMem>().index_type()))) continue; m.ops[i].as<BaseMem>().set_index_id(16 + (id + i) % 16); snprintf(pos, sizeof(pos), "op%u.index", i); }
+            exec(c, z);
+            size_t before = c.code.text_section()->buffer_size();
+            Res r2 = exec(c, m);
+            if (r2.ret == 0) {
+              accepted++;
+              size_t after = c.code.text_section()->buffer_size();
+              printf("W %u %s %s", id, name.data(), pos);
+              for (size_t q = before; q < after && q < before + 15; q++) printf(" %02x", c.code.text_section()->data()[q]);
+              printf("\n");
+            }
+          }
+        }
+        break;
+      }
+    }
+  }
+  printf("V vexonly insts=%u forms=%u accepted=%u\n", insts, forms, accepted);
+}
+
 // ------------------------------------------------------------------------------------------------ a64 register-id sweep
 // Deterministic (independent of the seed): for every instruction id, forms are discovered with a fixed-seed palette
 // search; in every accepted form each register position (operand, memory base, memory index) is given an id that
@@ -762,6 +849,99 @@ static void run_session(uint64_t seed, uint64_t session, bool verbose) {
         d.a = sw ? nlab : g.below(nlab); d.b = sw ? g.below(nlab) : nlab; d.c = g.chance(70) ? 1 : 2; pending.push_back(d);
       }
     }
+    if (pending.empty() && c.as && arch != AR_A64 && g.chance(6)) {   // EVEX + VSIB path instruction: reset_state(), set_extra_reg(k), vgatherdps v, [vsib]
+      Call z; z.kind = K_RESETSTATE; z.what = "reset_state"; pending.push_back(z);
+      if (g.chance(88)) { Call x; x.kind = K_SETEXTRA; x.what = "set_extra_reg"; static const uint32_t kw[] = {0, 8, 9, 15};
+        Reg kr = Reg::from_type_and_id(g.chance(95) ? RegType::kMask : RegType::kGp32, g.chance(88) ? 1 + g.below(7) : g.pick(kw));
+        x.a = kr.signature().bits(); x.b = kr.id(); pending.push_back(x); }
+      Call vq; vq.kind = K_VSIB2; vq.what = "vsib2"; vq.nform = 2;
+      bool x64 = arch == AR_X64;
+      uint32_t r = g.below(100);
+      uint32_t vt = r < 35 ? uint32_t(RegType::kVec128) : r < 65 ? uint32_t(RegType::kVec256) : r < 95 ? uint32_t(RegType::kVec512) : uint32_t(RegType::kGp32);
+      r = g.below(100);
+      uint32_t it = r < 30 ? uint32_t(RegType::kVec128) : r < 55 ? uint32_t(RegType::kVec256) : r < 80 ? uint32_t(RegType::kVec512) : r < 88 ? 0u : r < 95 ? uint32_t(x64 ? RegType::kGp64 : RegType::kGp32) : g.below(13);
+      if (g.chance(60) && vt >= uint32_t(RegType::kVec128)) it = vt;
+      r = g.below(100);
+      uint32_t bt = r < 75 ? uint32_t(x64 ? RegType::kGp64 : RegType::kGp32) : r < 88 ? 0u : r < 94 ? uint32_t(RegType::kGp32) : (2 + g.below(11));
+      uint32_t nid = x64 ? 32 : 8;
+      x86::Mem m;
+      m.set_base_type(RegType(bt)); m.set_base_id(g.chance(90) ? g.below(x64 ? 16 : 8) : 8 + g.below(24));
+      m.set_index_type(RegType(it)); m.set_index_id(g.chance(88) ? g.below(nid) : g.below(40));
+      m.set_shift(g.below(4));
+      { OperandSignature sg = m.signature(); sg.set_field<x86::Mem::kSignatureMemSegmentMask>(g.chance(85) ? 0 : g.below(8)); m.set_signature(sg); }
+      { static const uint32_t sz[] = {0, 0, 0, 4, 4, 8, 16, 64}; m.set_size(g.pick(sz)); }
+      int64_t off;
+      switch (g.below(6)) { case 0: off = 0; break; case 1: off = (int64_t(g.below(256)) - 128) * 4; break; case 2: off = int64_t(g.below(1100)) - 550; break; case 3: off = int32_t(g.u32()); break;
+                            case 4: off = int64_t(g.below(6)) - 3 + (g.chance(50) ? 508 : -512); break; default: off = int64_t(g.below(4)) - 2 + (g.chance(50) ? 127 : -128); break; }
+      if (bt == 0) m.set_offset(int64_t(int32_t(off))); else m.set_offset_lo32(int32_t(off));
+      vq.ops[0] = mk_reg(vt, g.chance(88) ? g.below(nid) : g.below(40));
+      vq.ops[1].copy_from(m);
+      pending.push_back(vq);
+    }
+    if (pending.empty() && c.as && arch != AR_A64 && g.chance(5)) {   // shift / rotate r, imm
+      using namespace x86;
+      Call z; z.kind = K_RESETSTATE; z.what = "reset_state"; pending.push_back(z);
+      if (g.chance(40)) { Call o; o.kind = K_SETOPT; o.what = "set_inst_options"; o.a = 0x20u; pending.push_back(o); }
+      Call sq; sq.kind = K_SHIFT; sq.what = "shift"; sq.nform = 2;
+      static const uint32_t ids[] = { Inst::kIdShl, Inst::kIdShr, Inst::kIdSar, Inst::kIdRol, Inst::kIdRor, Inst::kIdRcl, Inst::kIdRcr, Inst::kIdSal };
+      sq.a = g.pick(ids);
+      bool x64 = arch == AR_X64;
+      uint32_t r = g.below(100);
+      uint32_t rt = r < 20 ? uint32_t(RegType::kGp8Lo) : r < 32 ? uint32_t(RegType::kGp8Hi) : r < 47 ? uint32_t(RegType::kGp16) : r < 70 ? uint32_t(RegType::kGp32)
+                  : r < 90 ? uint32_t(RegType::kGp64) : r < 95 ? uint32_t(RegType::kVec128) : 2 + g.below(30);
+      static const uint32_t wid[] = {4, 7, 8, 15, 16, 31, 32, 255, 256, 0xFFFFFFFFu};
+      uint32_t rid = g.chance(80) ? g.below(x64 ? 16 : 8) : g.pick(wid);
+      int64_t imm;
+      switch (g.below(6)) { case 0: imm = 1; break; case 1: imm = int64_t(g.below(64)); break; case 2: imm = 257; break; case 3: imm = int64_t(g.below(600)) - 300; break;
+                            case 4: imm = int64_t(g.next()); break; default: imm = int64_t(g.below(8)); break; }
+      sq.ops[0] = mk_reg(rt, rid); if (!sq.ops[0].is_reg()) sq.ops[0] = mk_reg(uint32_t(RegType::kGp32), rid);   // a type without a signature makes no register operand
+      sq.ops[1] = mk_imm(imm); sq.c = uint64_t(imm);
+      pending.push_back(sq);
+    }
+    if (pending.empty() && c.as && arch != AR_A64 && g.chance(3)) {   // push / pop sreg
+      Call z; z.kind = K_RESETSTATE; z.what = "reset_state"; pending.push_back(z);
+      Call pq; pq.kind = K_PUSHPOP; pq.what = "pushpop"; pq.flag = g.chance(50);
+      static const uint32_t wid[] = {0, 7, 8, 15, 31, 32, 255, 256, 1000, 0xFFFFFFFFu};
+      pq.a = g.chance(70) ? 1 + g.below(6) : g.pick(wid);
+      pq.ops[0] = mk_reg(uint32_t(RegType::kSegment), pq.a);
+      pending.push_back(pq);
+    }
+    if (pending.empty() && c.as && arch == AR_A64 && g.chance(12)) {   // a64 load / store addressing path
+      using namespace a64;
+      Call z; z.kind = K_RESETSTATE; z.what = "reset_state"; pending.push_back(z);
+      Call lq; lq.kind = K_LDST; lq.what = "ldst"; lq.nform = 2;
+      static const uint32_t ids[] = { Inst::kIdLdr, Inst::kIdStr, Inst::kIdLdrb, Inst::kIdLdrh, Inst::kIdLdrsb, Inst::kIdLdrsh, Inst::kIdLdrsw, Inst::kIdStrb, Inst::kIdStrh };
+      lq.a = g.pick(ids);
+      bool literal = lq.a == Inst::kIdLdr || lq.a == Inst::kIdLdrsw;   // these have a literal (label / absolute) form: not modelled here
+      uint32_t r = g.below(100);
+      uint32_t rt = r < 45 ? uint32_t(RegType::kGp64) : r < 90 ? uint32_t(RegType::kGp32) : r < 95 ? uint32_t(RegType::kVec128) : 2 + g.below(30);
+      if (g.chance(80)) {   // mostly the register width the instruction takes
+        bool wonly = lq.a == Inst::kIdLdrb || lq.a == Inst::kIdLdrh || lq.a == Inst::kIdStrb || lq.a == Inst::kIdStrh;
+        if (wonly && rt == uint32_t(RegType::kGp64)) rt = uint32_t(RegType::kGp32);
+        if (lq.a == Inst::kIdLdrsw && rt == uint32_t(RegType::kGp32)) rt = uint32_t(RegType::kGp64);
+      }
+      static const uint32_t wr[] = {31, 32, 40, 62, 63, 64, 200, 255, 300, 0xFFFFFFFFu};
+      uint32_t rid = g.chance(80) ? g.below(31) : g.pick(wr);
+      r = g.below(100);
+      uint32_t bt = r < 84 ? uint32_t(RegType::kGp64) : r < 89 ? uint32_t(RegType::kGp32) : r < 93 ? uint32_t(RegType::kVec128) : r < 97 ? 0u : 2 + g.below(30);
+      if (bt == 0 && literal) bt = uint32_t(RegType::kGp64);
+      r = g.below(100);
+      uint32_t it = r < 45 ? 0u : r < 68 ? uint32_t(RegType::kGp64) : r < 90 ? uint32_t(RegType::kGp32) : r < 95 ? uint32_t(RegType::kVec128) : 2 + g.below(30);
+      a64::Mem m;
+      m.set_base_type(RegType(bt)); m.set_base_id(g.chance(85) ? g.below(32) : g.pick(wr));
+      m.set_index_type(RegType(it)); m.set_index_id(g.chance(80) ? g.below(31) : g.pick(wr));
+      m.set_shift_op(ShiftOp(g.chance(45) ? 0 : g.below(16)));
+      { static const uint32_t sv[] = {0, 0, 0, 1, 2, 3, 4, 31}; m.set_shift(g.pick(sv)); }
+      m.set_offset_mode(arm::OffsetMode(g.chance(70) ? 0 : g.below(4)));
+      int32_t off;
+      switch (g.below(8)) { case 0: off = 0; break; case 1: off = int32_t(g.below(512)) * 8; break; case 2: off = int32_t(g.below(600)) - 300; break;
+                            case 3: off = int32_t(4090 + g.below(12)) << g.below(4); break; case 4: off = int32_t(g.u32()); break; case 5: off = int32_t(g.below(8192)); break;
+                            case 6: off = -256 + int32_t(g.below(3)) - 1; break; default: off = 255 + int32_t(g.below(3)) - 1; break; }
+      if (it != 0 && g.chance(80)) off = 0;
+      if (bt != 0) m.set_offset_lo32(off);
+      lq.ops[0] = mk_reg(rt, rid); lq.ops[1].copy_from(m);
+      pending.push_back(lq);
+    }
     if (pending.empty() && c.as && arch != AR_A64 && g.chance(9)) {   // memory-operand path instruction
       Call z; z.kind = K_RESETSTATE; z.what = "reset_state"; pending.push_back(z);
       Call mq; mq.kind = K_MEM; mq.what = "mem";
@@ -807,17 +987,19 @@ static void run_session(uint64_t seed, uint64_t session, bool verbose) {
       uint32_t bt = r < 70 ? uint32_t(x64 ? RegType::kGp64 : RegType::kGp32) : r < 85 ? 0u : r < 92 ? uint32_t(RegType::kGp32) : (2 + g.below(11));
       uint32_t nid = x64 ? 16 : 8;
       x86::Mem m;
+      static const bool vexonly_fixed = getenv("C14_VEXONLY") != nullptr;   // ids 16..31 in the VEX-only form: only when the sweep found them refused
+      uint32_t hid = (vexonly_fixed && x64) ? 32 : 16;
       m.set_base_type(RegType(bt)); m.set_base_id(g.chance(90) ? g.below(nid) : 8 + g.below(24));
-      m.set_index_type(RegType(it)); m.set_index_id(g.chance(85) ? g.below(nid) : g.below(16));
+      m.set_index_type(RegType(it)); m.set_index_id(g.chance(85) ? g.below(nid) : g.below(hid));
       m.set_shift(g.below(4));
       { OperandSignature sg = m.signature(); sg.set_field<x86::Mem::kSignatureMemSegmentMask>(g.chance(80) ? 0 : g.below(8)); m.set_signature(sg); }
       { static const uint32_t sz[] = {0, 0, 0, 4, 4, 8, 16}; m.set_size(g.pick(sz)); }
       int64_t off;
       switch (g.below(4)) { case 0: off = 0; break; case 1: off = int64_t(g.below(256)) - 128; break; case 2: off = int32_t(g.u32()); break; default: off = int64_t(g.below(4)) - 2 + (g.chance(50) ? 127 : -128); break; }
       if (bt == 0) m.set_offset(int64_t(int32_t(off))); else m.set_offset_lo32(int32_t(off));
-      vq.ops[0] = mk_reg(vt, g.chance(85) ? g.below(nid) : g.below(16));
+      vq.ops[0] = mk_reg(vt, g.chance(85) ? g.below(nid) : g.below(hid));
       vq.ops[1].copy_from(m);
-      vq.ops[2] = mk_reg(vt, g.chance(85) ? g.below(nid) : g.below(16));
+      vq.ops[2] = mk_reg(vt, g.chance(85) ? g.below(nid) : g.below(hid));
       pending.push_back(vq);
     }
     if (!pending.empty()) {
@@ -837,6 +1019,22 @@ static void run_session(uint64_t seed, uint64_t session, bool verbose) {
                  k.ops[0].x86_rm_size() | k.ops[2].x86_rm_size(), unsigned(m.base_type()), m.base_id(), unsigned(m.index_type()), m.index_id(), m.shift(), unsigned(m.segment_id()),
                  unsigned(m.addr_type()), unsigned(m.size()), off);
       }
+      else if (k.kind == K_SETEXTRA) snprintf(cmd, sizeof(cmd), "X %u %u", k.a, k.b);
+      else if (k.kind == K_VSIB2) {
+        const x86::Mem& m = k.ops[1].as<x86::Mem>();
+        long long off = m.base_type() == RegType::kNone ? (long long)m.offset() : (long long)m.offset_lo32();
+        snprintf(cmd, sizeof(cmd), "V2 %u %u %u %u %u %u %u %u %u %u %u %u %lld", unsigned(x86::Inst::kIdVgatherdps), unsigned(k.ops[0].as<Reg>().reg_type()), k.ops[0].id(),
+                 k.ops[0].x86_rm_size(), unsigned(m.base_type()), m.base_id(), unsigned(m.index_type()), m.index_id(), m.shift(), unsigned(m.segment_id()),
+                 unsigned(m.addr_type()), unsigned(m.size()), off);
+      }
+      else if (k.kind == K_SHIFT)
+        snprintf(cmd, sizeof(cmd), "SH %u %u %u %u %lld", k.a, unsigned(k.ops[0].as<Reg>().reg_type()), k.ops[0].id(), unsigned(k.ops[0].x86_rm_size()), (long long)int64_t(k.c));
+      else if (k.kind == K_LDST) {
+        const a64::Mem& m = k.ops[1].as<a64::Mem>();
+        snprintf(cmd, sizeof(cmd), "LS %u %u %u %u %u %u %u %u %u %u %d", k.a, unsigned(k.ops[0].as<Reg>().reg_type()), k.ops[0].id(), unsigned(m.base_type()), m.base_id(),
+                 unsigned(m.index_type()), m.index_id(), unsigned(m.shift_op()), m.shift(), unsigned(m.offset_mode()), m.base_type() == RegType::kNone ? 0 : int(m.offset_lo32()));
+      }
+      else if (k.kind == K_PUSHPOP) snprintf(cmd, sizeof(cmd), "PP %d %u %u", int(k.flag), unsigned(k.flag ? x86::Inst::kIdPop : x86::Inst::kIdPush), k.a);
       else if (k.kind == K_NEWLABEL) snprintf(cmd, sizeof(cmd), "L");
       else if (k.kind == K_EMBED) snprintf(cmd, sizeof(cmd), "E %u", k.a);
       else if (k.kind == K_BIND) { /* cmd is printed after the call (B id pf) */ }
@@ -910,6 +1108,20 @@ static void run_session(uint64_t seed, uint64_t session, bool verbose) {
     else if (w < 91) { k.kind = K_ALIGN; k.what = "align"; static const uint32_t al[] = {0, 1, 2, 4, 8, 16, 32, 64, 128, 3, 5, 12, 48, 65, 256, 0x80000000u, 0xFFFFFFFFu};
                        k.a = g.chance(85) ? g.below(3) : 3 + g.below(250); k.b = g.pick(al); snprintf(cmd, sizeof(cmd), "A %u %u", k.a, k.b); }
     else if (w < 94) { k.kind = K_EMBED; k.what = "embed"; k.a = g.chance(20) ? 0 : 1 + g.below(arch == AR_A64 && g.chance(70) ? 16 : 40); if (arch == AR_A64 && g.chance(70)) k.a &= ~3u; snprintf(cmd, sizeof(cmd), "E %u", k.a); }
+    else if (w < 97 && g.chance(30)) {   // embed_const_pool
+      k.kind = K_CONSTPOOL; k.what = "embed_const_pool"; k.b = 1 + g.below(4);
+      uint32_t r = g.below(100);
+      if (r < 25 || !nlab) k.a = pick_label(g, c, false);
+      else if (r < 45) { k.a = g.below(nlab);                     // any label: bound / node active ones are refused
+        if (c.as && !getenv("C14_POOL_ATOMIC") && !c.code.is_label_bound(k.a) && c.code.label_entry_of(k.a).unresolved_fixups()) k.a = pick_label(g, c, false); }
+      else {                                                      // an unbound label; one with pending fixups only when the call is atomic
+        k.a = nlab; bool any_pending = getenv("C14_POOL_ATOMIC") != nullptr;
+        for (uint32_t t = 0; t < 8; t++) { uint32_t cand = g.below(nlab);
+          if (!c.code.is_label_bound(cand) && (any_pending || !c.code.label_entry_of(cand).unresolved_fixups())) { k.a = cand; break; } }
+      }
+      uint32_t psize = k.b == 4 ? 16 : 8 * k.b, palign = k.b == 4 ? 16 : 8;
+      snprintf(cmd, sizeof(cmd), "CP %u %u %u", k.a, psize, palign);
+    }
     else if (w < 97) { static const uint32_t sz[] = {0, 1, 2, 4, 8, 3, 5, 6, 7, 16, 9, 255, 0x100};
                        if (g.chance(60)) { k.kind = K_EMBEDLABEL; k.what = "embed_label";
                          k.a = g.chance(70) && nlab ? g.below(nlab) : pick_label(g, c, false); k.b = g.pick(sz); snprintf(cmd, sizeof(cmd), "EL %u %u", k.a, k.b); }
@@ -979,9 +1191,9 @@ static void run_session(uint64_t seed, uint64_t session, bool verbose) {
       else snprintf(cmd, sizeof(cmd), "I err %u", r.ret);
       char b[64]; snprintf(b, sizeof(b), " %s id=%u", k.what, k.a); info += b; info += ops_str(k);
     }
-    else if (k.kind == K_MEM || k.kind == K_VSIB) {
+    else if (k.kind == K_MEM || k.kind == K_VSIB || k.kind == K_LDST || k.kind == K_SHIFT || k.kind == K_VSIB2) {
       if (r.ret == 0 && !r.thrown) { std::string bad = bad_reg_ids(c, k, pre); if (!bad.empty()) { info += " badreg enc=0"; info += bad; info += " inst-modelled"; } }
-      info += k.kind == K_MEM ? " mem" : " vsib"; info += ops_str(k);
+      info += k.kind == K_MEM ? " mem" : k.kind == K_LDST ? " ldst" : k.kind == K_SHIFT ? " shift" : k.kind == K_VSIB2 ? " vsib2" : " vsib"; info += ops_str(k);
     }
     else if (k.kind == K_REL) { char b[96]; snprintf(b, sizeof(b), " rel kind=%u label=%u c=%" PRIu64, k.a, k.b, k.c); info += b;
       if (r.ret == 0 && !r.thrown && k.b < pre.lbound.size() && pre.lbound[k.b] && pre.lsec[k.b] != pre.cur && post.fix > pre.fix) info += " xsec-fixup"; }
@@ -1004,7 +1216,7 @@ static void run_session(uint64_t seed, uint64_t session, bool verbose) {
     const Call& k = history[i]; const Res& r = results[i];
     bool failed = r.ret != 0 || r.thrown;
     if (!failed) { Res r2 = exec(fr, k); if (r2.ret != 0 || r2.thrown) replay_fail++; }
-    else if (k.kind == K_INST || k.kind == K_REL || k.kind == K_MEM || k.kind == K_VSIB) { Call z; z.kind = K_RESETSTATE; exec(fr, z); }
+    else if (k.kind == K_INST || k.kind == K_REL || k.kind == K_MEM || k.kind == K_VSIB || k.kind == K_PUSHPOP || k.kind == K_LDST || k.kind == K_SHIFT || k.kind == K_VSIB2) { Call z; z.kind = K_RESETSTATE; exec(fr, z); }
     else if (k.kind == K_BIND && c.as) {
       if (r.ret == uint32_t(Error::kInvalidDisplacement)) exec(fr, k); else { Call z; z.kind = K_RESETCMT; exec(fr, z); }
     }
@@ -1018,7 +1230,7 @@ static void run_session(uint64_t seed, uint64_t session, bool verbose) {
     Snap t1, t2; take(c, t1); take(fr, t2); b1 = snap_str(t1); b2 = snap_str(t2);
     fin_same = (e1 == e2) && (b1 == b2);
     // a failed (possibly thrown-out-of) finalize() must leave both emitters usable and equivalent: finalize once more
-    if (e1 != 0 && fin_same && !c.func_mode) {   // (not after a failed register allocation: re-running the RA on a half-allocated function is not defined)
+    if (e1 != 0 && fin_same && (!c.func_mode || getenv("C14_REFINALIZE"))) {   // after a failed register allocation only when the probe showed that the RA cleans up after itself
       int k1 = c.handler.calls, k2 = fr.handler.calls;
       auto fin_again = [](Ctx& x) -> uint32_t { try { return uint32_t(x.em->finalize()); } catch (const Thrown& t) { return 0x10000u | uint32_t(t.err); } };
       uint32_t g1 = fin_again(c), g2 = fin_again(fr);
@@ -1077,6 +1289,46 @@ int main(int argc, char** argv) {
     printf("PROBE %s emit=%u finalize=%u\nEND\n", argv[1], unsigned(e1), unsigned(e2));
     return 0;
   }
+  if (argc == 3 && !strcmp(argv[1], "probe-refinalize")) {
+    // Compiler::finalize() called three times: after an RA failure (0: unknown virtual id, 1: jump to a label that is never
+    // bound), after a serialization failure (2: invalid label id in a memory operand) and after a success (3)
+    int variant = atoi(argv[2]);
+    CodeHolder code; code.init(Environment(Arch::kX64)); x86::Compiler cc(&code);
+    cc.add_diagnostic_options(DiagnosticOptions::kValidateIntermediate);
+    cc.add_func(FuncSignature::build<void>());
+    x86::Gp a = cc.new_gp32(), b = cc.new_gp32();
+    cc.mov(a, 1); cc.mov(b, 2); cc.add(a, b);
+    if (variant == 0) { x86::Gp ghost = a; ghost.set_id(a.id() + 100); Operand o0, o1, none, ext[3]; o0.copy_from(ghost); o1.copy_from(b); (void)cc._emit(x86::Inst::kIdAdd, o0, o1, none, ext); }
+    else if (variant == 1) { Label L = cc.new_label(); cc.jmp(L); }
+    else if (variant == 2) { Label bad; bad.set_id(12345); cc.lea(x86::rax, x86::ptr(bad)); }
+    cc.end_func();
+    Error e1 = cc.finalize(); Error e2 = cc.finalize(); Error e3 = cc.finalize();
+    printf("PROBE refinalize %d %u %u %u\nEND\n", variant, unsigned(e1), unsigned(e2), unsigned(e3));
+    return 0;
+  }
+  if (argc == 2 && !strcmp(argv[1], "probe-jumpregs")) {
+    // AArch64 Compiler: `b` given three virtual registers instead of a label (nothing validates a64 instructions): the RA's
+    // CFG builder hands out a scratch register per tied register of a jump - only two exist
+    CodeHolder code; code.init(Environment(Arch::kAArch64)); a64::Compiler cc(&code);
+    cc.add_func(FuncSignature::build<void>());
+    a64::Gp a = cc.new_gp32(), b = cc.new_gp32(), c = cc.new_gp32();
+    cc.mov(a, 1); cc.mov(b, 2); cc.mov(c, 3);
+    Operand o0, o1, o2, ext[3]; o0.copy_from(a); o1.copy_from(b); o2.copy_from(c);
+    Error e0 = cc._emit(a64::Inst::kIdB, o0, o1, o2, ext);
+    cc.end_func();
+    Error e1 = cc.finalize();
+    printf("PROBE jumpregs %u %u\nEND\n", unsigned(e0), unsigned(e1));
+    return 0;
+  }
+  if (argc == 2 && !strcmp(argv[1], "probe-constpool-pad")) {
+    // embed_const_pool(label, pool) whose bind is refused (a pending rel8 displacement does not fit): no padding may stay behind
+    ArenaTmp<512> arena(512); ConstPool pool(arena); uint64_t v = 0x1122334455667788ull; size_t off; pool.add(&v, 8, Out(off));
+    CodeHolder code; code.init(Environment(Arch::kX64)); x86::Assembler a(&code);
+    Label l = a.new_label(); a.short_().jmp(l); a.embed(kData, 200); a.embed(kData, 3);
+    size_t before = a.offset(); Error e1 = a.embed_const_pool(l, pool); size_t after = a.offset();
+    printf("PROBE constpoolpad err=%u size=%zu/%zu bound=%d\nEND\n", unsigned(e1), before, after, int(code.is_label_bound(l)));
+    return 0;
+  }
   if (argc == 2 && !strcmp(argv[1], "probe-constpool")) {
     // embed_const_pool(label, pool) with a label that is ALREADY bound: the call must fail without padding the section /
     // appending an align node first
@@ -1092,18 +1344,20 @@ int main(int argc, char** argv) {
     printf("PROBE constpool asm_err=%u asm_size=%zu/%zu builder_err=%u builder_nodes=%zu/%zu\nEND\n", unsigned(e1), before, after, unsigned(e2), n0, n1);
     return 0;
   }
+  if (argc == 2 && !strcmp(argv[1], "sweep-vexonly")) { sweep_vexonly(); printf("END\n"); return 0; }
   if (argc == 2 && !strcmp(argv[1], "sweep")) { g_scratch = new Scratch(); sweep_a64(); printf("END\n"); return 0; }
   if (argc < 4) { fprintf(stderr, "usage: c14_harness seed first n [v] | sweep\n"); return 2; }
   uint64_t seed = strtoull(argv[1], nullptr, 10), first = strtoull(argv[2], nullptr, 10), n = strtoull(argv[3], nullptr, 10);
   bool verbose = argc > 4;
   for (size_t i = 0; i < sizeof(kData); i++) kData[i] = uint8_t(i * 37 + 1);
   // numeric values of the constants the model mirrors (compared with the model's `model_constants`)
-  printf("T %u %u %u %u %u %u %u %u %u %u %u %u %u %u %u %u %u %u %u %u %u %u %u %u\n", unsigned(Error::kInvalidArgument), unsigned(Error::kInvalidState), unsigned(Error::kInvalidLabel),
+  printf("T %u %u %u %u %u %u %u %u %u %u %u %u %u %u %u %u %u %u %u %u %u %u %u %u %u %u %u\n", unsigned(Error::kInvalidArgument), unsigned(Error::kInvalidState), unsigned(Error::kInvalidLabel),
          unsigned(Error::kLabelAlreadyBound), unsigned(Error::kLabelAlreadyDefined), unsigned(Error::kLabelNameTooLong), unsigned(Error::kInvalidLabelName),
          unsigned(Error::kInvalidParentLabel), unsigned(Error::kInvalidSection), unsigned(Error::kInvalidSectionName), unsigned(Error::kInvalidDisplacement),
          unsigned(Error::kInvalidOperandSize), unsigned(Globals::kMaxAlignment), unsigned(Globals::kMaxSectionNameSize), unsigned(Globals::kMaxLabelNameSize),
          unsigned(AlignMode::kMaxValue), unsigned(Globals::kInvalidId), unsigned(InstOptions::kShortForm), unsigned(InstOptions::kLongForm), unsigned(Error::kInvalidPhysId),
-         unsigned(Error::kInvalidRexPrefix), unsigned(Error::kInvalidAddress), unsigned(Error::kInvalidAddressIndex), unsigned(Error::kInvalidAddress64Bit));
+         unsigned(Error::kInvalidRexPrefix), unsigned(Error::kInvalidAddress), unsigned(Error::kInvalidAddressIndex), unsigned(Error::kInvalidAddress64Bit),
+         unsigned(Error::kInvalidSegment), unsigned(Error::kInvalidInstruction), unsigned(Error::kInvalidAddressScale));
   printf("P bind_atomic=%d\n", probe_bind_atomic());
   g_scratch = new Scratch();
   for (uint64_t s = first; s < first + n; s++) { run_session(seed, s, verbose); fflush(stdout); }
